@@ -106,11 +106,12 @@ func c11Run(c *core.Ctx) {
 	if c.Tier == core.Quick {
 		scopes = []scope{{5, 2, []string{"x", "y", "z"}, []int64{ms, hour + ms}}, {4, 3, []string{"x", "y"}, []int64{ms}}, {3, 4, []string{"x", "y"}, []int64{ms}},
 			{4, 3, []string{"xy", "x|y", "x\ny"}, []int64{ms}}, // the same text in one run and in two; the same letters on two lines (another text)
-			{5, 3, []string{"x", "y"}, []int64{ns, 300000}}} // gaps and overlaps shorter than a millisecond
+			{5, 3, []string{"x", "y"}, []int64{ns, 300000}},    // gaps and overlaps shorter than a millisecond
+			{4, 3, []string{"", "x"}, []int64{ms}}}             // cues without text are cues: equal (empty) texts that touch are merged
 		invMax, invGrid = 3, 6
 	} else {
 		scopes = []scope{{5, 3, []string{"x", "y", "z"}, []int64{ms, hour + ms}}, {4, 4, []string{"x", "y"}, []int64{ms, ns}}, {5, 4, []string{"x", "y"}, []int64{ms}}, {3, 5, []string{"x", "y"}, []int64{ms}},
-			{4, 4, []string{"xy", "x|y", "x\ny"}, []int64{ms}}, {5, 3, []string{"x", "y"}, []int64{300000}}}
+			{4, 4, []string{"xy", "x|y", "x\ny"}, []int64{ms}}, {5, 3, []string{"x", "y"}, []int64{300000}}, {4, 4, []string{"", "x"}, []int64{ms}}}
 		invMax, invGrid = 3, 9
 	}
 	for _, sc := range scopes {
